@@ -115,6 +115,12 @@ def adm_suite(ctx, vh, name, args, goclient=False):
         rows, stray = once()
         if rows is None:
             return
+    # a held Join that the watchdog (not the script) ended: the schedule was not the forced one
+    wd = [r for r in rows if r.get("watchdog")]
+    if wd:
+        ctx.indeterminate += len(wd)
+        ctx.note("%s: %d cases in which a held Join was ended by the watchdog are not compared" % (name, len(wd)))
+        rows = [r for r in rows if not r.get("watchdog")]
     terms = [adm_term(r) for r in rows]
     for r in rows:
         key = (r["nsp"], tuple(r["v"]), tuple(r["j"]), r["conc"] > 1) if r["k"] > 0 else None
@@ -124,6 +130,24 @@ def adm_suite(ctx, vh, name, args, goclient=False):
     if rj:
         ctx.sample({"suite": name, "case": {k: rj[0][k] for k in ("nsp", "k", "v", "j", "calls", "resp", "msg_kind", "msg_mw", "post")}})
     bad_oracle, bad_agree = eval_both(ctx, "adm_" + name.replace("-", "_"), terms, "oracle", "agree", "oracle_and_agree")
+    if bad_agree and not bad_oracle:
+        # only the correspondence differs (the property holds on the observation): the suite is run
+        # again before anything is reported; a difference that does not come back for the same
+        # case (namespace, verdicts, joins) was a schedule the rig did not force - counted, not reported
+        first = {(rows[i]["nsp"], tuple(rows[i]["v"]), tuple(rows[i]["j"])) for i in bad_agree}
+        rows2, stray2 = once()
+        if rows2 is not None:
+            rows2 = [r for r in rows2 if not r.get("watchdog")]
+            bo2, ba2 = eval_both(ctx, "adm_" + name.replace("-", "_") + "_again", [adm_term(r) for r in rows2],
+                                 "oracle", "agree", "oracle_and_agree")
+            again = {(rows2[i]["nsp"], tuple(rows2[i]["v"]), tuple(rows2[i]["j"])) for i in ba2}
+            if bo2 or (first & again):
+                rows, stray, bad_oracle, bad_agree = rows2, stray2, bo2, ba2
+            else:
+                ctx.indeterminate += len(bad_agree)
+                ctx.note("%s: %d cases differed from the model's prediction once and not when the suite was repeated: %s"
+                         % (name, len(bad_agree), sorted(first)[:3]))
+                bad_agree = []
     ctx.obligation("correspondence:admission/" + name, "correspondence", not bad_agree,
                    "%d live admissions, %d differ from the model's prediction" % (len(rows), len(bad_agree)))
     ctx.obligation("oracle:admission/" + name, "oracle", not bad_oracle and not stray,
